@@ -633,6 +633,59 @@ def quotedOk (tok : Str) : Bool :=
     (q = '"' || q = '\'') && rest.getLast? = some q && rest.length ≥ 1 && quotedBodyOk q false rest.dropLast
   | [] => false
 
+/-! ## CssRead for the declaration-only subset
+    (`C06_style_equiv_model_partial`; also run by the driver on grass's own output) -/
+
+def isWs (c : Char) : Bool := c = ' ' || c = '\n'
+
+def dropWs (s : Str) : Str := s.filter (fun c => !isWs c)
+
+/-- Split at every `c` (all pieces, including empty ones). -/
+def splitOnC (c : Char) : Str → List Str
+  | [] => [[]]
+  | x :: xs =>
+    match splitOnC c xs with
+    | [] => [[x]]
+    | l :: ls => if x = c then [] :: l :: ls else (x :: l) :: ls
+
+def readDecl (d : Str) : Option (Str × Str) :=
+  match splitOnC ':' d with
+  | [n, v] => some (n, v)
+  | _ => none
+
+def readRule (r : Str) : Option (Str × List (Str × Str)) :=
+  match splitOnC '{' r with
+  | [sel, body] => (((splitOnC ';' body).filter (fun d => !d.isEmpty)).mapM readDecl).map (fun ds => (sel, ds))
+  | _ => none
+
+/-- Reader for `sel{name:value;…}…` texts: whitespace dropped, rules end at `}`, selector before `{`,
+    declarations separated by `;` (a final `;` is optional), name before the first `:`. -/
+def readCss (s : Str) : Option (List (Str × List (Str × Str))) :=
+  let parts := splitOnC '}' (dropWs s)
+  if parts.getLast? = some [] then parts.dropLast.mapM readRule else none
+
+/-! simple trees -/
+
+structure SRule where
+  sel : Str
+  decls : List (Str × Str)
+
+def declStmt (d : Str × Str) : Stmt := .decl d.1 false (.atom (.raw d.2))
+
+def SRule.toStmt (r : SRule) : Stmt :=
+  .rule true [⟨false, [.compound [.text r.sel]]⟩] (Stmts.ofList (r.decls.map declStmt))
+
+/-- A leaf of the subset: non-empty, no whitespace and none of `{ } ; :`. -/
+def word (x : Str) : Bool :=
+  !x.isEmpty && x.all (fun c => c ≠ ' ' && c ≠ '\n' && c ≠ '{' && c ≠ '}' && c ≠ ';' && c ≠ ':')
+
+def SRule.ok (r : SRule) : Bool := word r.sel && r.decls.all (fun d => word d.1 && word d.2)
+
+/-- What the reader is expected to return: the rules that have declarations. -/
+def rulesOf (t : List SRule) : List (Str × List (Str × Str)) :=
+  (t.filter (fun r => !r.decls.isEmpty)).map (fun r => (r.sel, r.decls))
+
+
 /-! ## driver: tree decoding -/
 
 open Grass.Proto
@@ -864,6 +917,7 @@ def sassFree (out : Str) : Bool :=
     `wf <hex>`                     → `ok <0|1>`   P̂ well-formedness of a text
     `charset <0|1> <hex>`          → `ok <0|1>`   P̂ charset rule
     `sassfree <hex>`               → `ok <0|1>`
+    `read <hex>`                   → `ok <rules>` | `none`   CssRead (declaration-only subset)
     `quote <hex>`                  → `ok <hex of quote s> <quotedOk> <roundtrip ok>`
     `quotedok <hex of token>`      → `ok <0|1> <hex of unescape or _>`  -/
 def handle : List String → String
@@ -885,6 +939,16 @@ def handle : List String → String
   | ["sassfree", h] =>
     match hexStr h with
     | some s => "ok " ++ boolStr (sassFree s)
+    | none => "bad-op"
+  | ["read", h] =>
+    -- `read <hex>` → `ok <sel>=<name>:<value>,…|…` with hex fields, or `none`
+    match hexStr h with
+    | some s =>
+      match readCss s with
+      | some rules =>
+        "ok " ++ String.intercalate "|" (rules.map fun r =>
+          outHex r.1 ++ "=" ++ String.intercalate "," (r.2.map fun d => outHex d.1 ++ ":" ++ outHex d.2))
+      | none => "none"
     | none => "bad-op"
   | ["quote", h] =>
     match hexStr h with
